@@ -710,5 +710,14 @@ func init() {
 		} {
 			e.c14Fwd(s, tx, m.fn, m.lean, m.callee)
 		}
+		// round 5c: the control-flow terms of the …Ctx statement methods (Tie: the error of exec / query /
+		// PrepareContext is what the method returns)
+		for _, m := range []struct{ fn, lean string }{
+			{"txSession.ExecCtx", "txExecCtxBlk"}, {"txSession.QueryRowCtx", "txQueryRowCtxBlk"},
+			{"txSession.QueryRowPartialCtx", "txQueryRowPartialCtxBlk"}, {"txSession.QueryRowsCtx", "txQueryRowsCtxBlk"},
+			{"txSession.QueryRowsPartialCtx", "txQueryRowsPartialCtxBlk"}, {"txSession.PrepareCtx", "txPrepareCtxBlk"},
+		} {
+			e.c14BlkDef(s, tx, m.fn, m.lean)
+		}
 	})
 }
